@@ -11,37 +11,50 @@
 (*   mi       : where medium_index is given: "model"|"data"|"both"|"neither"*)
 (*   pixels   : random pixel subset requested?                             *)
 (*   kind     : "alpha_fixed" | "alpha_prior" | "exact"                    *)
+(*   layered  : is the scatterer a layered sphere?  (invalid then means:   *)
+(*              some, not all, layer radii negative)                       *)
+(* With Rounds = 2 the same model is evaluated a second time: the caller   *)
+(* either passes a new container of values or REUSES the first container   *)
+(* after changing it in place (to other valid values, or to values that    *)
+(* make the scatterer invalid); every round is the same control flow on    *)
+(* the values it is given - nothing of round 1 may survive.                *)
 (* The result is a class: "neginf", "finite", or "missing:<key>"; the      *)
 (* forward model is called at most once, and never when the prior is -inf. *)
 (***************************************************************************)
 EXTENDS Integers, Sequences, FiniteSets
 
-VARIABLES inp, stage, lnprior, noiseFrom, miFrom, forwardCalls, result
+CONSTANTS Rounds
 
-vars == <<inp, stage, lnprior, noiseFrom, miFrom, forwardCalls, result>>
+VARIABLES inp, stage, lnprior, noiseFrom, miFrom, forwardCalls, result, round, reuse
+
+vars == <<inp, stage, lnprior, noiseFrom, miFrom, forwardCalls, result, round, reuse>>
 
 Inputs == [sup : BOOLEAN, scat : BOOLEAN, cons : {"none", "ok", "violated"},
            mnoise : {"none", "scalar", "prior"}, dnoise : {"absent", "none", "scalar"},
            uniform : BOOLEAN, mi : {"model", "data", "both", "neither"},
-           pixels : BOOLEAN, kind : {"alpha_fixed", "alpha_prior", "exact"}]
+           pixels : BOOLEAN, kind : {"alpha_fixed", "alpha_prior", "exact"}, layered : BOOLEAN]
 
 Init == /\ inp \in Inputs
         /\ (inp.cons # "none" => inp.scat)       \* the constraint is only evaluated on a valid scatterer
+        /\ (inp.layered => inp.cons = "none")    \* layered spheres appear alone
+        /\ (Rounds = 2 => (inp.cons = "none" /\ inp.mnoise = "scalar" /\ inp.mi = "model" /\ inp.uniform
+                           /\ inp.dnoise = "absent" /\ ~inp.pixels))
+        /\ round = 1 /\ reuse = "first"
         /\ stage = "start" /\ lnprior = "unknown" /\ noiseFrom = "unknown" /\ miFrom = "unknown"
         /\ forwardCalls = 0 /\ result = "pending"
 
 EvalPrior == /\ stage = "start"
              /\ lnprior' = IF ~inp.scat \/ inp.cons = "violated" \/ ~inp.sup THEN "neginf" ELSE "finite"
              /\ stage' = "prior"
-             /\ UNCHANGED <<inp, noiseFrom, miFrom, forwardCalls, result>>
+             /\ UNCHANGED <<inp, noiseFrom, miFrom, forwardCalls, result, round, reuse>>
 
 ShortCircuit == /\ stage = "prior" /\ lnprior = "neginf"
                 /\ result' = "neginf" /\ stage' = "done"
-                /\ UNCHANGED <<inp, lnprior, noiseFrom, miFrom, forwardCalls>>
+                /\ UNCHANGED <<inp, lnprior, noiseFrom, miFrom, forwardCalls, round, reuse>>
 
 Subset == /\ stage = "prior" /\ lnprior = "finite"
           /\ stage' = "subset"
-          /\ UNCHANGED <<inp, lnprior, noiseFrom, miFrom, forwardCalls, result>>
+          /\ UNCHANGED <<inp, lnprior, noiseFrom, miFrom, forwardCalls, result, round, reuse>>
 
 (* noise: the model's if given, else the data's; None is allowed only for all-uniform priors *)
 NoiseSource == IF inp.mnoise # "none" THEN "model"
@@ -53,7 +66,7 @@ FindNoise == /\ stage = "subset"
              /\ IF NoiseSource = "missing"
                 THEN result' = "missing:noise_sd" /\ stage' = "done"
                 ELSE result' = result /\ stage' = "noise"
-             /\ UNCHANGED <<inp, lnprior, miFrom, forwardCalls>>
+             /\ UNCHANGED <<inp, lnprior, miFrom, forwardCalls, round, reuse>>
 
 OpticsSource == IF inp.mi \in {"model", "both"} THEN "model"
                 ELSE IF inp.mi = "data" THEN "data" ELSE "missing"
@@ -62,13 +75,24 @@ Forward == /\ stage = "noise"
            /\ IF OpticsSource = "missing"
               THEN result' = "missing:medium_index" /\ forwardCalls' = forwardCalls /\ stage' = "done"
               ELSE result' = result /\ forwardCalls' = forwardCalls + 1 /\ stage' = "forward"
-           /\ UNCHANGED <<inp, lnprior, noiseFrom>>
+           /\ UNCHANGED <<inp, lnprior, noiseFrom, round, reuse>>
 
 Sum == /\ stage = "forward"
        /\ result' = "finite" /\ stage' = "done"
-       /\ UNCHANGED <<inp, lnprior, noiseFrom, miFrom, forwardCalls>>
+       /\ UNCHANGED <<inp, lnprior, noiseFrom, miFrom, forwardCalls, round, reuse>>
+
+\* second evaluation of the same model: new values, given in a fresh or in the re-used container
+Again(change, how) ==
+   /\ stage = "done" /\ round < Rounds
+   /\ round' = round + 1 /\ reuse' = how
+   /\ inp' = IF change = "to_invalid" THEN [inp EXCEPT !.scat = FALSE]
+             ELSE IF change = "to_valid" THEN [inp EXCEPT !.scat = TRUE, !.sup = TRUE]
+             ELSE inp
+   /\ stage' = "start" /\ lnprior' = "unknown" /\ noiseFrom' = "unknown" /\ miFrom' = "unknown"
+   /\ forwardCalls' = 0 /\ result' = "pending"
 
 Next == EvalPrior \/ ShortCircuit \/ Subset \/ FindNoise \/ Forward \/ Sum
+        \/ \E ch \in {"other_valid", "to_invalid", "to_valid"}, how \in {"fresh", "in_place"} : Again(ch, how)
 Spec == Init /\ [][Next]_vars
 
 -----------------------------------------------------------------------------
